@@ -28,7 +28,6 @@ T0 = 1700000000          # base timestamp (s) of every point: one shard group, o
 WRITE_BUDGET = 120.0     # s: a write retried this long with a majority up must have been acknowledged
 QUERY_BUDGET = 120.0
 GRACE = 5.0              # s after a restarted store is registered alive and its partition is online: catch-up window
-GRACE_ELECT = 12.0       # s after another store was killed while this one was still catching up (a new raft leader must be elected first)
 SERIES = {1: ["s1", "t1"], 2: ["s2", "t2"], 3: ["s3", "t3"]}     # model cell -> series of the batch
 
 
@@ -61,7 +60,8 @@ def mode_a(tier):
 # schedule generation (the specification as generator)
 
 def short(s):
-    return " ".join(e["a"][0] + (str(e["w"]) if e["a"] == "Write" else (e["r"][0] if e["a"] == "Kill" else "")) +
+    ab = {"Write": "W", "Kill": "K", "Restart": "R", "Flush": "F", "Query": "Q", "Bulk": "Bulk", "WaitTrunc": "Trunc", "Sleep": "Sleep"}
+    return " ".join(ab.get(e["a"], e["a"]) + (str(e["w"]) if e["a"] == "Write" else (e["r"][0] if e["a"] == "Kill" else "")) +
                     ("*" if e["a"] == "Kill" and e["f"] else "") for e in s)
 
 
@@ -164,6 +164,23 @@ class Driver:
             time.sleep(0.2)
         return False
 
+    def diagnose(self):
+        """state of the cluster when a write / query was not served within its budget"""
+        d = {}
+        try:
+            d["layout"] = [str(x) for x in self.layout()]
+            m = self.meta()
+            d["rg"] = m["ReplicaGroups"].get(DB)
+            d["ptview"] = m["PtView"].get(DB)
+            d["nodes"] = [(n["ID"], n["Host"], n["Status"], n["LTime"]) for n in m["DataNodes"]]
+            d["cluster"] = [(r.get("hostname"), r.get("status")) for r in self.cl.cluster_view()]
+        except Exception as ex:
+            d["err"] = str(ex)
+        for i in (1, 2, 3):
+            d[f"meta{i}.error.log"] = self.cl.error_log(i, "meta.error", 2500)
+            d[f"store{i}.error.log"] = self.cl.error_log(i, "store.error", 1500)
+        return d
+
     # -- one schedule ---------------------------------------------------------------------------------
     def run(self, sid, sched, patient):
         cl = self.cl
@@ -173,6 +190,7 @@ class Driver:
         t0 = time.time()
         qn = [0]
         stop = threading.Event()
+        stop_all = threading.Event()
         down = set()
         monitors = []
         outage = [(0.0, 0.0)]
@@ -268,12 +286,31 @@ class Driver:
                 if time.time() - tb > 180:
                     return
                 time.sleep(0.5)
-            # caught up = GRACE after it is back, and - catching up needs a raft leader to catch up from - GRACE_ELECT after
-            # the latest kill of another store (election timeout 10 ticks x 400 ms, randomised up to twice that)
+            # caught up = GRACE after it is back. If another store was killed after this one came back, catching up needs a
+            # NEW raft leader first (election timeout 4-8 s, restarted by every futile candidacy of the lagging member): a
+            # probe write (own measurement, not judged) begun after that kill must have been acknowledged - that takes a
+            # leader and a quorum whose logs match - and GRACE counts from there.
             t_on = time.time()
-            while time.time() < max(t_on + GRACE, lastkill[0] + GRACE_ELECT):
-                if self.gen[i] != g:
+            t_ok = t_on
+            seen_kill = tb
+            while True:
+                if self.gen[i] != g or stop_all.is_set():
                     return
+                lk = lastkill[0]
+                if lk > seen_kill:
+                    seen_kill = time.time()
+                    while self.gen[i] == g and not stop_all.is_set():
+                        try:
+                            st, _ = cl.write(DB, f"{mst}_probe,host=p{i} v=1i {T0}", precision="s", timeout=30)
+                        except Exception:
+                            st = -1
+                        if st == 204:
+                            break
+                        time.sleep(0.5)
+                    t_ok = time.time()
+                    continue
+                if time.time() >= max(t_on, t_ok) + GRACE:
+                    break
                 time.sleep(0.1)
             if self.gen[i] == g and cl.store_alive(i):
                 add(ev="Settled", i=i)
@@ -371,6 +408,36 @@ class Driver:
                     do_restart(wait=patient)
                 elif a["a"] == "Query":
                     ok = do_query()
+                elif a["a"] == "Sleep":
+                    time.sleep(a["s"])
+                    add(ev="Note", what=f"slept {a['s']}s")
+                elif a["a"] == "Bulk":
+                    # padding so that the raft entry log rotates (32 MB per file): one acknowledged request per MB, not judged
+                    pad = "x" * 1000
+                    for b in range(a["mb"]):
+                        body = "\n".join(f"{mst}_pad,host=p{b} v=\"{pad}\" {T0 + 1000 + r_}" for r_ in range(1000))
+                        tb = time.time()
+                        while True:
+                            st, _ = cl.write(DB, body, precision="s", timeout=60)
+                            if st == 204:
+                                break
+                            if time.time() - tb > WRITE_BUDGET:
+                                raise vlib.Infra("padding write not accepted")
+                            time.sleep(0.5)
+                    add(ev="Note", what=f"{a['mb']} MB of padding acknowledged")
+                elif a["a"] == "WaitTrunc":
+                    # until the master's store has deleted its first raft entry file (ClearEntryLog applied)
+                    ms = self.master_store()
+                    pts, _, _ = self.layout()
+                    ed = os.path.join(cl.dir, f"n{ms}", "data", "wal", DB, str(pts[ms]), "__raft_entries__")
+                    first = sorted(f for f in os.listdir(ed) if f.endswith(".entry"))[0]
+                    tb = time.time()
+                    while os.path.exists(os.path.join(ed, first)) and time.time() - tb < a["max_s"]:
+                        time.sleep(1.0)
+                    gone = not os.path.exists(os.path.join(ed, first))
+                    info["truncated"] = gone
+                    add(ev="Note", what=f"entry file {first} of store {ms} " + ("deleted" if gone else "still there") +
+                        f" after {time.time() - tb:.0f}s; files now {sorted(os.listdir(ed))}")
                 if killer:
                     killer.join()
                     j += 1
@@ -400,17 +467,24 @@ class Driver:
             ok = False
         finally:
             stop.set()
+            stop_all.set()
             if rd:
                 rd.join(timeout=60)
             for i in list(down):      # leave the cluster whole for the next schedule
                 cl.start_store(i)
                 down.discard(i)
+        if not ok and not info["died"]:
+            info["diag"] = self.diagnose()
         info.update({"events": ev, "sched": sched, "ok_run": ok, "wall_s": round(time.time() - t0, 1)})
         return info
 
 
 def run_cluster(cid, items, seed, extra_conf=None):
+    conf0 = extra_conf
     """items = [(sid, sched, patient)]; one cluster, schedules one after the other"""
+    if os.environ.get("C05_LOGLEVEL"):       # debugging aid: store / meta / sql logs at another level
+        extra_conf = dict(extra_conf or {})
+        extra_conf["logging"] = dict(extra_conf.get("logging", {}), level='"%s"' % os.environ["C05_LOGLEVEL"])
     cl = vcluster.Cluster(name=f"c05-{cid}", seed=seed * 100 + cid, extra_conf=extra_conf)
     out = []
     try:
@@ -422,6 +496,7 @@ def run_cluster(cid, items, seed, extra_conf=None):
         for sid, sched, patient in items:
             r = drv.run(sid, sched, patient)
             r["cluster"] = cid
+            r["extra_conf"] = conf0
             r["boot_s"] = round(cl.boot_s, 1)
             out.append(r)
             if r["died"]:
@@ -437,7 +512,29 @@ def run_cluster(cid, items, seed, extra_conf=None):
                 time.sleep(0.5)
         return out
     finally:
-        cl.stop()
+        keep = os.environ.get("C05_KEEP") == "all" or (bool(os.environ.get("C05_KEEP")) and any(not r["ok_run"] for r in out))
+        if keep:
+            vlib.log(f"[c05] cluster directory kept: {cl.dir}")
+        cl.stop(keep=keep)
+
+
+def act(a, w=0, c=0, r="-", f=0, **kw):
+    d = {"a": a, "w": w, "c": c, "r": r, "f": f}
+    d.update(kw)
+    return d
+
+
+# The TLC counterexample of deviation "truncate_past_down_member" (Kill follower, Write, Flush, Truncate, Restart,
+# SnapInstall, read at the rejoined member), made concrete: the follower stays down longer than clear-entryLog-tolerate-time
+# (lowered from 6h to 1s), enough is written for the entry log to rotate, the leader flushes and its periodic
+# deleteEntryLog (1 min ticker) truncates; the follower comes back and every replica is asked.
+LONG_DOWN = [act("Write", 1, 1), act("Kill", r="follower"), act("Write", 2, 1), act("Write", 3, 2), act("Write", 4, 1),
+             act("Bulk", mb=40), act("Write", 5, 3), act("Flush"), act("Query"), act("WaitTrunc", max_s=200),
+             act("Write", 6, 2), act("Restart"), act("Sleep", s=30)]      # 30 s on top of the usual catch-up allowance
+LONG_DOWN_L = [act("Write", 1, 1), act("Kill", r="leader"), act("Write", 2, 1), act("Write", 3, 2), act("Write", 4, 1),
+               act("Bulk", mb=40), act("Write", 5, 3), act("Flush"), act("Query"), act("WaitTrunc", max_s=200),
+               act("Write", 6, 2), act("Restart"), act("Sleep", s=30)]
+LONG_DOWN_CONF = {"data": {"clear-entryLog-tolerate-time": '"1s"'}}
 
 
 # ---------------------------------------------------------------------------------------------------
@@ -511,7 +608,7 @@ def explain(r, t):
                 bad.append(f"{c}: value {v} was never written")
         d += "; " + "; ".join(bad[:8])
     elif e["ev"] in ("WFail", "QFail"):
-        d += f"; retry budget of {WRITE_BUDGET:.0f}s exhausted while at most a minority of the stores was down"
+        d += f"; retry budget of {WRITE_BUDGET:.0f}s exhausted while at most a minority of the stores was down; " + json.dumps(r.get("diag", {}))[:6000]
     return d
 
 
@@ -539,25 +636,119 @@ def negative_controls(good):
 
 # ---------------------------------------------------------------------------------------------------
 
+# ---------------------------------------------------------------------------------------------------
+# known findings: deviation models
+
+def f_c05_1(r, k):
+    """F-C05-1 (deviation "truncate_past_down_member"). Predicate: the leader deleted raft entry files while store D was
+    down (D was killed before, not restarted until after the deletion), and event k is the answer of a read DIRECTED at D.
+    Prediction: D holds exactly the writes acknowledged before it was killed and the writes begun after the flush whose
+    snapshot index became the truncation point; every write begun after the kill and acknowledged before that flush is
+    missing on D. Anything else (another replica, other rows) is not this finding."""
+    ev = r["events"]
+    e = ev[k]
+    if e["ev"] != "QEnd" or not r.get("truncated"):
+        return None
+    it = next((i for i, x in enumerate(ev) if x["ev"] == "Note" and "deleted" in x.get("what", "") and "entry file" in x.get("what", "")), None)
+    if it is None:
+        return None
+    D = None
+    for i in range(it):
+        if ev[i]["ev"] == "Kill":
+            D, ik = ev[i]["i"], i
+        elif ev[i]["ev"] == "Restart" and ev[i]["i"] == D:
+            D = None
+    if D is None:
+        return None
+    flushes = [i for i in range(ik, it) if ev[i]["ev"] == "Flush"]
+    if not flushes:
+        return None
+    ifl = flushes[-1]
+    sw = [i for i in range(k) if ev[i]["ev"] in ("Switch", "Kill", "Restart")]
+    if not sw or ev[sw[-1]]["ev"] != "Switch" or ev[sw[-1]]["store"] != D:
+        return None
+    qb = next(i for i in range(k, -1, -1) if ev[i]["ev"] == "QBegin" and ev[i]["q"] == e["q"])
+    if qb < sw[-1]:
+        return None
+    pred, latest, missing = {}, {}, []
+    i = 0
+    while i < k:
+        x = ev[i]
+        if x["ev"] == "WBegin":
+            j = next((j for j in range(i + 1, len(ev)) if ev[j]["ev"] in ("WAck", "WFail")), None)
+            if j is None or ev[j]["ev"] != "WAck" or j > k:
+                return None                      # unknown outcomes are not part of the deviation model
+            if (i < ik < j) or (i < ifl < j):
+                return None                      # in flight across the kill / the flush: either side, not predicted
+            on_d = j < ik or i > ifl
+            for c in x["cells"]:
+                latest[c] = x["w"]
+                if on_d:
+                    pred[c] = x["w"]
+            if not on_d:
+                missing.append(x["w"])
+        i += 1
+    got = {c: v for c, v in e["rows"]}
+    if got != pred or pred == latest or not missing:
+        return None
+    return (f"read directed at store {D} (down {ev[it]['t'] - ev[ik]['t']:.0f}s when the leader truncated its entry log) returns exactly the "
+            f"writes acknowledged before its kill and after the truncation point; writes {missing} (acknowledged while it was down, "
+            f"older than the truncation point) are missing on it for good: {len(latest) - len([c for c in latest if got.get(c) == latest[c]])} "
+            f"of {len(latest)} cells stale or absent")
+
+
+DEVIATION_MODELS = {"F-C05-1": f_c05_1}
+
+
+def judge(r, open_ids):
+    """validate one history; divergences that are exactly what an open finding predicts are taken out and noted, validation goes on.
+    returns (accepted, detail, [(finding id, what)])"""
+    notes = []
+    r = dict(r, events=list(r["events"]))
+    for _ in range(50):
+        ok, t = validate([trace_of(r)])
+        if ok:
+            return True, "", notes, t
+        k = (t.get("reached") or 1) - 1
+        hit = None
+        if k < len(r["events"]):
+            for fid, fn in DEVIATION_MODELS.items():
+                if fid in open_ids:
+                    what = fn(r, k)
+                    if what:
+                        hit = (fid, what)
+                        break
+        if not hit:
+            return False, explain(r, t), notes, t
+        notes.append(hit)
+        q = r["events"][k]["q"]
+        r["events"] = [e for e in r["events"] if not (e["ev"] in ("QBegin", "QEnd") and e.get("q") == q)]
+    return False, "too many attributed divergences in one history", notes, t
+
+
+# ---------------------------------------------------------------------------------------------------
+
 def plan(tier):
     if tier == "quick":
-        return {"clusters": 4, "per_cluster": 2}
-    return {"clusters": 6, "per_cluster": 9}
+        return {"clusters": 4, "per_cluster": 2, "directed": [("follower", LONG_DOWN)]}
+    return {"clusters": 6, "per_cluster": 9, "directed": [("follower", LONG_DOWN), ("leader", LONG_DOWN_L)]}
 
 
 def run(tier, seed):
     t0 = time.time()
     pl = plan(tier)
     n = pl["clusters"] * pl["per_cluster"]
-    bins = vcluster.build_cluster()
+    vcluster.build_cluster()
     scheds, gstat = gen_schedules(n, seed)
     rnd = random.Random(seed)
     items = [(sid, s, rnd.random() < 0.5) for sid, s in enumerate(scheds)]
     chunks = [items[c::pl["clusters"]] for c in range(pl["clusters"])]
     results, infra = [], []
-    with cf.ThreadPoolExecutor(pl["clusters"] + 1) as ex:
+    with cf.ThreadPoolExecutor(pl["clusters"] + len(pl["directed"]) + 1) as ex:
         fa = ex.submit(mode_a, tier)           # TLC on the design model runs beside the cluster runs
         futs = [ex.submit(run_cluster, c, chunks[c], seed) for c in range(pl["clusters"])]
+        # directed: the TLC counterexample of deviation truncate_past_down_member, made concrete, on its own cluster
+        futs += [ex.submit(run_cluster, 90 + i, [(9000 + i, sch, True)], seed, LONG_DOWN_CONF) for i, (_, sch) in enumerate(pl["directed"])]
         for f in futs:
             try:
                 results += f.result()
@@ -567,14 +758,15 @@ def run(tier, seed):
     vcluster.remove_private_binaries()
     if infra:
         raise vlib.Infra(f"{len(infra)} cluster(s) failed: " + infra[0][:3000])
-    bad, good = [], []
+    open_ids = {f["id"] for f in vlib.load_known(PROP)}
+    bad, good, known_notes = [], [], []
     for r in results:
         if r["died"]:
             r["detail"] = f"ts-store {r['died']['store']} died by itself during schedule [{short(r['sched'])}]:\n" + r["died"]["log"][-3000:]
             bad.append(r)
         else:
             good.append(r)
-    tstats = {"histories": len(good), "events": sum(len(r["events"]) for r in good)}
+    tstats = {"histories": len(good), "events": sum(len(r["events"]) for r in good), "tlc_states": 0, "tlc_generated": 0}
     accepted = []
     if good:
         ok, t = validate([trace_of(r) for r in good])
@@ -584,25 +776,26 @@ def run(tier, seed):
             accepted = good
         else:
             for r in good:
-                ok1, t1 = validate([trace_of(r)])
+                ok1, detail, notes, t1 = judge(r, open_ids)
+                known_notes += [(r, fid, what) for fid, what in notes]
                 if ok1:
-                    accepted.append(r)
+                    if not notes:
+                        accepted.append(r)
                 else:
-                    r["detail"] = explain(r, t1)
+                    r["detail"] = detail
                     bad.append(r)
     neg = negative_controls(accepted) if accepted else {}
-    known = vlib.load_known(PROP)
+    for r, fid, what in known_notes:
+        print(f"KNOWN-FINDING: property={PROP} {fid} schedule [{short(r['sched'])}]: {what[:600]}")
     nbad = 0
     for r in bad:
-        fid = attribute(r, known)
-        if fid:
-            print(f"KNOWN-FINDING: property={PROP} {fid} {r['detail'][:300]}")
-            continue
         nbad += 1
         if nbad <= 5:
             path = vlib.save_replay(PROP, {"result": r})
             print(f"VIOLATION property={PROP} replay={path}")
             vlib.log(r["detail"][:3000])
+    directed = [{"schedule": short(r["sched"]), "truncated": r.get("truncated"), "wall_s": r["wall_s"],
+                 "attributed": [fid for rr, fid, _ in known_notes if rr is r]} for r in results if r["sid"] >= 9000]
     evs = [e for r in results for e in r["events"]]
     cnt = lambda name: sum(1 for e in evs if e["ev"] == name)
     kills = [k for r in results for k in r["kills"]]
@@ -618,14 +811,15 @@ def run(tier, seed):
         "replica_directed_reads": cnt("Switch"), "flushes": cnt("Flush"),
         "clusters": pl["clusters"], "boot_s": sorted({r["boot_s"] for r in results}),
         "schedule_wall_s": [r["wall_s"] for r in results],
+        "directed_truncation": directed, "known_finding_observations": len(known_notes),
         "generator": gstat, "trace_validation": tstats, "negative_controls": neg, "tlc": {"design": a},
         "exhaustive": False,
     }
     vlib.write_evidence(PROP, tier, seed, "model_checking", cov, time.time() - t0, nbad, [
         "etcd/raft and memberlist/serf are trusted; the specification covers what openGemini adds around them",
         "fault schedules are enumerated by TLC on the specification side and sampled (one timing each) on the cluster side",
-        f"a restarted store counts as caught up {GRACE:.0f}s after meta reports it alive with its partition online (and {GRACE_ELECT:.0f}s after "
-        "the latest kill of another store that happened meanwhile: catching up needs a raft leader); queries that overlap "
+        f"a restarted store counts as caught up {GRACE:.0f}s after meta reports it alive with its partition online (if another store was killed "
+        f"meanwhile: {GRACE:.0f}s after a probe write begun after that kill was acknowledged, i.e. a new raft leader exists); queries that overlap "
         "the catch-up window of one store while another one is down must only not invent values",
         "one sequential writer: the order of writes to a cell is the client's program order; a failed attempt is retried with the same batch",
         "a replica-directed read is issued 1s after /modifyRepDBMasterPt moved the master partition",
@@ -634,58 +828,41 @@ def run(tier, seed):
     return 1 if nbad else 0
 
 
-def attribute(r, known):
-    """divergences are attributed to an open finding only through its signature (none registered: every divergence is a violation)"""
-    for f in known:
-        sig = f.get("signature", {})
-        fn = SIGNATURES.get(sig.get("kind"))
-        if fn and fn(r, sig):
-            return f["id"]
-    return None
-
-
-SIGNATURES = {}
-
-
 def replay(path, seed):
+    """re-judges the recorded history of a saved case; with C05_RERUN=1 (or for a case without events) the schedule is driven
+    into a fresh cluster again (timing differs from run to run)"""
     obj = json.load(open(path))
     r = obj.get("result", obj)
     if r.get("died"):
         print(f"VIOLATION property={PROP} replay={path}")
         vlib.log(r.get("detail", ""))
         return 1
-    if r.get("events"):
-        ok, t = validate([trace_of(r)])
-        if ok:
-            print("recorded history is accepted by TraceReplication.tla")
-            if obj.get("rerun") or os.environ.get("C05_RERUN"):
-                return rerun(r, seed)
-            return 0
-        print(f"VIOLATION property={PROP} replay={path}")
-        vlib.log(explain(r, t))
-        return 1
+    if r.get("events") and not os.environ.get("C05_RERUN"):
+        return report([r], path)
     if r.get("sched"):
-        return rerun(r, seed)
+        res = run_cluster(0, [(r.get("sid", 0), r["sched"], r.get("patient", False))], seed, extra_conf=r.get("extra_conf"))
+        vcluster.remove_private_binaries()
+        return report(res, None)
     raise vlib.Infra("nothing to replay in " + path)
 
 
-def rerun(r, seed):
-    """drive the schedule of a saved case into a fresh cluster again (timing differs from run to run)"""
-    res = run_cluster(0, [(r.get("sid", 0), r["sched"], r.get("patient", False))], seed, extra_conf=r.get("extra_conf"))
-    vcluster.remove_private_binaries()
+def report(results, path):
+    open_ids = {f["id"] for f in vlib.load_known(PROP)}
     rc = 0
-    for x in res:
-        if x["died"]:
+    for x in results:
+        if x.get("died"):
             print(f"VIOLATION property={PROP} store died")
             rc = 1
             continue
-        ok, t = validate([trace_of(x)])
+        ok, detail, notes, _ = judge(x, open_ids)
+        for fid, what in notes:
+            print(f"KNOWN-FINDING: property={PROP} {fid} schedule [{short(x['sched'])}]: {what[:600]}")
         if not ok:
-            x["detail"] = explain(x, t)
-            p = vlib.save_replay(PROP, {"result": x})
+            x["detail"] = detail
+            p = path or vlib.save_replay(PROP, {"result": x})
             print(f"VIOLATION property={PROP} replay={p}")
-            vlib.log(x["detail"])
+            vlib.log(detail)
             rc = 1
-    if rc == 0:
-        print("schedule re-driven, history accepted")
+        elif not notes:
+            print(f"history of schedule [{short(x['sched'])}] is accepted by TraceReplication.tla")
     return rc
